@@ -245,6 +245,79 @@ def run_generator_crosscheck(rp, tier, rng, cases):
 
 
 # ------------------------------------------------------------------------------------------------
+# statements: prescribed-tree oracle on the whole documented surface (tie b only)
+
+def run_statements(rp, tier, rng):
+    gen = G.StmtGen(rng)
+    pres = G.StmtPrescriber()
+    n = 1500 if tier == "quick" else 20000
+    cases = []
+    for i in range(n):
+        s = gen.statement()
+        rd = G.StmtRenderer(rng, rng.choice([0.0, 0.0, 0.1, 0.25]))
+        try:
+            sql = " ".join(rd.S(s))
+        except RecursionError:
+            continue
+        cases.append(dict(id="stmt:%d" % i, s=s, sql=sql, want=pres.ast(s), feats=G.features(s)))
+    outs = vh_lines("c03stmt", [{"id": c["id"], "sql": c["sql"]} for c in cases])
+    viol, rejected = [], 0
+    feats_ok, combos = {}, set()
+    for c, o in zip(cases, outs):
+        c["out"] = o
+        why = None
+        if o.get("panic"): why = "panic: " + o["panic"][:200]
+        elif not o["accepted"]:
+            why = "rejected (%s)" % o.get("code"); rejected += 1
+        elif len(o.get("trees") or []) != 1: why = "%d statements in the tree" % len(o.get("trees") or [])
+        else: why = G.tree_diff(c["want"], o["trees"][0])
+        if why:
+            c["why"] = why; viol.append(c)
+        else:
+            for f in c["feats"]: feats_ok[f] = feats_ok.get(f, 0) + 1
+            combos.add(tuple(sorted(f for f in c["feats"] if ":" not in f)))
+    rp.cov["stmt_cases"] = len(cases)
+    rp.cov["stmt_fraction_rejected"] = round(rejected / max(1, len(cases)), 4)
+    rp.cov["stmt_features_held"] = dict(sorted(feats_ok.items()))
+    rp.cov["stmt_clause_combinations_held"] = len(combos)
+    return cases, viol
+
+
+# ------------------------------------------------------------------------------------------------
+# known findings: witnesses are replayed on every run
+
+def witness_fails(w):
+    """(fails, why) of a known-finding witness on the implementation"""
+    if w["kind"] == "expr":
+        o = vh_lines("c03expr", [{"id": "w", "sql": w["sql"]}])[0]
+        if not o["accepted"]: return True, "rejected (%s)" % o.get("code")
+        if o["pos"] != len(o["tokens"]) - 1: return True, "parser stopped after %d of %d tokens" % (o["pos"], len(o["tokens"]) - 1)
+        d = G.tree_diff(w["prescribed"], o.get("tree")) if w.get("prescribed") else None
+        return (d is not None), d
+    o = vh_lines("c03stmt", [{"id": "w", "sql": w["sql"]}])[0]
+    if not o["accepted"]: return True, "rejected (%s)" % o.get("code")
+    if len(o.get("trees") or []) != 1: return True, "%d statements" % len(o.get("trees") or [])
+    d = G.tree_diff(w["prescribed"], o["trees"][0]) if w.get("prescribed") else None
+    return (d is not None), d
+
+
+def run_known(rp, kf):
+    for k in kf:
+        fails, why = witness_fails(k["witness"])
+        if k["status"] == "fixed":
+            rp.obligation("fixed finding stays fixed: " + k["key"], not fails, why or "")
+            if fails:
+                rp.violation(dict(k["witness"], why=why, note="defect recorded as fixed in %s is back" % k.get("commit")), "fixed_" + k["key"])
+        else:
+            var_fail = [v for v in k.get("variants", []) if witness_fails({"kind": "stmt", "sql": v})[0]]
+            if fails:
+                rp.known(k["key"], k["what"])
+            else:
+                rp.cov["notes"].append("stale known finding (witness holds now): " + k["key"])
+            rp.cov.setdefault("known_witnesses", {})[k["key"]] = {"witness_fails": fails, "why": why, "variants_failing": len(var_fail)}
+
+
+# ------------------------------------------------------------------------------------------------
 
 THEOREMS = ["Props.C03.C03_parse_render_expr_partial", "Props.C03.C03_refuted_cmp_rhs_primary",
             "Props.C03.C03_refuted_like_primary"]
@@ -275,6 +348,8 @@ def run(tier):
         cases, viol, tokbad = run_expressions(rp, tier, rng, kf)
         items, corr_bad, depth_bad = run_correspondence(rp, tier, rng, cases)
         gen_bad = run_generator_crosscheck(rp, tier, rng, cases)
+        scases, sviol = run_statements(rp, tier, rng)
+        run_known(rp, kf)
     except common.StageError as e:
         return common.stage_fail(rp, e)
     rp.obligation("oracle(b): real parseExpression = prescribed tree on all generated reference expressions", not viol, "%d failures" % len(viol))
@@ -285,6 +360,10 @@ def run(tier):
     for c in viol[:5]:
         rp.violation({"kind": "expr", "sql": c["sql"], "model_expr": c["e"], "prescribed": c["want"], "observed": c["out"].get("tree"),
                       "accepted": c["out"]["accepted"], "why": c["why"]}, "expr_" + c["id"])
+    rp.obligation("oracle(b): real parser = prescribed tree on generated statements of the documented surface", not sviol, "%d failures" % len(sviol))
+    for c in sviol[:8]:
+        rp.violation({"kind": "stmt", "sql": c["sql"], "prescribed": c["want"], "observed": (c["out"].get("trees") or [None])[0],
+                      "accepted": c["out"]["accepted"], "code": c["out"].get("code"), "why": c["why"]}, "stmt_" + c["id"])
     for it, r in corr_bad[:5]:
         rp.violation({"kind": "correspondence", "broken": "ExprParse.v vs parseExpression", "sql": it[1], "depth": it[2],
                       "impl": {k: it[3].get(k) for k in ("accepted", "code", "pos", "tree", "panic")}}, "corr_" + it[0], no_input=True)
@@ -307,6 +386,11 @@ def replay(path):
         o = vh_lines("c03expr", [{"id": "r", "sql": r["sql"]}])[0]
         ok = o["accepted"] and G.tree_diff(r["prescribed"], o.get("tree")) is None
         print("replay: %s -> %s" % (r["sql"], "holds" if ok else "STILL FAILS"))
+        return 0 if ok else 1
+    if r.get("kind") == "stmt":
+        o = vh_lines("c03stmt", [{"id": "r", "sql": r["sql"]}])[0]
+        ok = o["accepted"] and len(o.get("trees") or []) == 1 and G.tree_diff(r["prescribed"], o["trees"][0]) is None
+        print("replay: %s -> %s" % (r["sql"][:200], "holds" if ok else "STILL FAILS"))
         return 0 if ok else 1
     print("replay: no implementation input in this file (%s)" % r.get("kind"))
     return 1
